@@ -309,6 +309,34 @@ Definition step_trace (t : trace) (o : op) : trace :=
 Definition run (cache_len : nat) (start : N) (ops : list op) : trace :=
   fold_left step_trace ops (T (init cache_len start) [] []).
 
+(* ---- sync cycles on one queue object -------------------------------------- *)
+(* queue.Reset(): every body-download field is re-created; resultSize (the float
+   behind Reserve's limit input) and the peers' lacking sets are not the queue's *)
+Definition reset (s : state) : state :=
+  St 0 [] [] [] [] (repeat None (length (cache s))) 0 (lacks s).
+(* PeerSet.Reset() -> peerConnection.Reset(): lacking = make(map) for every peer *)
+Definition reset_peers (s : state) : state := set_lacks s [].
+(* queue.Prepare(offset, FullSync): the offset is only ever raised *)
+Definition prepare (o : N) (s : state) : state :=
+  if offset s <? o then St (head s) (tpool s) (tqueue s) (pend s) (done s) (cache s) o (lacks s) else s.
+
+Inductive qop :=
+| Op (o : op)          (* an operation inside a cycle *)
+| QReset               (* synchronise(): d.queue.Reset() *)
+| QResetPeers          (* synchronise(): d.peers.Reset() *)
+| QPrepare (o : N).    (* syncWithPeer(): d.queue.Prepare(origin+1, mode) *)
+
+Definition qstep (s : state) (q : qop) : state * out :=
+  match q with
+  | Op o => step s o
+  | QReset => (reset s, OUnit)
+  | QResetPeers => (reset_peers s, OUnit)
+  | QPrepare o => (prepare o s, OUnit)
+  end.
+
+(* what synchronise() + syncWithPeer() do to the queue before a cycle from [o] *)
+Definition new_cycle (s : state) (o : N) : state := prepare o (reset_peers (reset s)).
+
 End Model.
 
 (* ---- correspondence runner ---------------------------------------------- *)
@@ -432,17 +460,17 @@ Record case := mkCase {
   c_len : nat;                            (* blockCacheItems *)
   c_start : N;                            (* Prepare(start) *)
   c_table : list (list N * N);            (* tx-root table; root 0 = EmptyRootHash *)
-  c_steps : list (op * obs * digest);      (* the scripted history *)
+  c_steps : list (qop * obs * digest);     (* the scripted history: one or more sync cycles *)
   c_mid : dump;                            (* full state after it *)
-  c_finish : list (op * obs * digest);     (* all requests expire, a fresh honest peer answers *)
+  c_finish : list (qop * obs * digest);     (* all requests expire, a fresh honest peer answers *)
   c_final : dump
 }.
 
-Fixpoint run_steps (dv : list N -> N) (s : state) (l : list (op * obs * digest)) : option state :=
+Fixpoint run_steps (dv : list N -> N) (s : state) (l : list (qop * obs * digest)) : option state :=
   match l with
   | [] => Some s
   | (o, x, d) :: r =>
-    let (s', out) := step dv 0 s o in
+    let (s', out) := qstep dv 0 s o in
     if obs_eqb out x && digest_eqb (digest_of s') d then run_steps dv s' r else None
   end.
 
